@@ -595,6 +595,68 @@ package shwap
 //@   property C18
 //@   nopanic
 //@   ensures result == Left || result == Right
+//@   ensures (side == pb.Row_LEFT ==> result == Left) && (side == pb.Row_RIGHT ==> result == Right)
+
+//@ func (RowSide).ToProto
+//@   property C18
+//@   ensures (s == Left ==> result == pb.Row_LEFT) && (s == Right ==> result == pb.Row_RIGHT)
+
+// ---------------------------------------------------------------------------------------------
+// C18: the protobuf form of shares and rows, field by field. A row that holds both halves is sent as
+// its left half and labelled LEFT; a half row is sent as it is under its own side; decoding takes the
+// side from the label and the shares in order. (protobuf's own byte encoding of the message is A-CODEC.)
+//@ extern github.com/celestiaorg/go-square/v4/share.NewShare
+//@   ensures err == nil ==> result0.data == data
+//@ extern (*github.com/celestiaorg/celestia-node/share/shwap/pb.Row).GetSharesHalf
+//@   ensures m != nil ==> result == m.SharesHalf
+//@ extern (*github.com/celestiaorg/celestia-node/share/shwap/pb.Row).GetHalfSide
+//@   ensures m != nil ==> result == m.HalfSide
+
+//@ func ShareFromProto
+//@   property C18
+//@   nopanic
+//@   ensures err == nil ==> s != nil && result0.data == s.Data
+
+//@ func SharesToProto
+//@   property C18
+//@   nopanic
+//@   ensures len(result) == len(shrs) && isFresh(result)
+//@   ensures forall i int :: 0 <= i && i < len(shrs) ==> result[i] != nil && result[i].Data == shrs[i].data
+//@   loop 1: invariant -1 <= rangeindex && rangeindex < len(shrs) && len(protoShares) == len(shrs) && isFresh(protoShares)
+//@   loop 1: invariant forall j int :: 0 <= j && j <= rangeindex ==> protoShares[j] != nil && protoShares[j].Data == shrs[j].data
+
+//@ func SharesFromProto
+//@   property C18
+//@   nopanic
+//@   ensures err == nil ==> len(result0) == len(shrs) && isFresh(result0)
+//@   ensures err == nil ==> forall i int :: 0 <= i && i < len(shrs) ==> shrs[i] != nil && result0[i].data == shrs[i].Data
+//@   loop 1: invariant -1 <= rangeindex && rangeindex < len(shrs) && len(shares) == len(shrs) && isFresh(shares)
+//@   loop 1: invariant forall j int :: 0 <= j && j <= rangeindex ==> shrs[j] != nil && shares[j].data == shrs[j].Data
+
+//@ func (Row).ToProto
+//@   property C18
+//@   requires r.side == Left || r.side == Right || r.side == Both
+//@   ensures result != nil && isFresh(result)
+//@   ensures result.HalfSide == (r.side == Right ? pb.Row_RIGHT : pb.Row_LEFT)
+//@   ensures len(result.SharesHalf) == (r.side == Both ? len(r.shares)/2 : len(r.shares))
+//@   ensures forall i int :: 0 <= i && i < len(result.SharesHalf) ==> result.SharesHalf[i] != nil && result.SharesHalf[i].Data == r.shares[i].data
+
+//@ func RowFromProto
+//@   property C18
+//@   nopanic
+//@   ensures err == nil ==> r != nil && len(result0.shares) == len(r.SharesHalf)
+//@   ensures err == nil ==> (r.HalfSide == pb.Row_LEFT ==> result0.side == Left) && (r.HalfSide == pb.Row_RIGHT ==> result0.side == Right)
+//@   ensures err == nil ==> forall i int :: 0 <= i && i < len(r.SharesHalf) ==> r.SharesHalf[i] != nil && result0.shares[i].data == r.SharesHalf[i].Data
+
+//@ lemma C18_Row_proto_roundtrip(r Row)
+//@   property C18
+//@   assume r.side == Left || r.side == Right || r.side == Both
+//@   let p = r.ToProto()
+//@   let back, e = RowFromProto(p)
+//@   assume e == nil
+//@   assert back.side == (r.side == Right ? Right : Left)
+//@   assert len(back.shares) == (r.side == Both ? len(r.shares)/2 : len(r.shares))
+//@   assert forall i int :: 0 <= i && i < len(back.shares) ==> back.shares[i].data == r.shares[i].data
 
 // ---------------------------------------------------------------------------------------------
 // NamespaceDataID and the wire form of RowNamespaceDataID: the namespace travels as its bytes after
